@@ -299,13 +299,53 @@ def run(m: Model, r: Report, tier: str) -> None:
     r.check(src2.count("unravel(") == 3 and m.has(u2, "sorted(ur)") and m.has(u2, "sorted(unsorted_result)"), "R5", f"{u2.qualname}#uses-unravel",
             "both levels must be parsed with unravel and the result sorted", loc=u2.loc)
     check_unravel_2d(m, r, "R5")
-    pr = m.require_function(f"{CONFIG}._process_ranges")
-    ps = ast.unparse(pr.node)
-    r.check("unravel(','.join(value.split()))" in ps and "unravel(','.join(value))" in ps, "R5", f"{pr.qualname}#joins", "Ranges must join tokens with ',' and parse with unravel", loc=pr.loc)
+    # the before-validators of Ranges / Ranges2D, evaluated over the input kinds pydantic hands them: text, the CLI's list of words, an already parsed value
+    from sa import miniterp as _mtv
     cmod = m.module(CONFIG)
-    r2d = cmod.assigns.get("Ranges2D")
-    r.check(r2d is not None and "unravel_2d(' '.join(x))" in ast.unparse(r2d) and "unravel_2d(x)" in ast.unparse(r2d), "R5", f"{CONFIG}.Ranges2D#joins",
-            "Ranges2D must join list items with ' ' and parse with unravel_2d", loc=cmod.relpath)
+
+    def validator_of(name: str):
+        ann = cmod.assigns.get(name)
+        calls_ = [n for n in ast.walk(ann) if isinstance(n, ast.Call) and ast.unparse(n.func).split(".")[-1] == "BeforeValidator" and len(n.args) == 1] if ann is not None else []
+        if len(calls_) != 1:
+            return None
+        a0 = calls_[0].args[0]
+        if isinstance(a0, ast.Lambda):
+            return a0
+        if isinstance(a0, ast.Name) and a0.id in cmod.functions:
+            return cmod.functions[a0.id].node
+        return None
+
+    def run_validator(v, value, parser: str):
+        def orc(call, env_):
+            if ast.unparse(call.func) == parser and len(call.args) == 1:
+                return ("PARSED", _mtv.eval_expr(call.args[0], env_, orc))
+            return NotImplemented
+        if isinstance(v, ast.Lambda):
+            return _mtv.eval_expr(v.body, {v.args.args[0].arg: value}, orc)
+        ret_, env_ = _mtv.run_function(v, {v.args.args[0].arg: value}, orc)
+        return _mtv.eval_expr(ret_.value, env_, orc) if ret_ is not None and ret_.value is not None else None
+    for tname, parser, sep, construct in (("Ranges", "unravel", ",", f"{CONFIG}._process_ranges#joins"), ("Ranges2D", "unravel_2d", " ", f"{CONFIG}.Ranges2D#joins")):
+        v_ = validator_of(tname)
+        if v_ is None:
+            r.unrecognised("R5", construct, f"the BeforeValidator of {tname} was not found", cmod.relpath)
+            continue
+        parsed_in = [1, 2] if tname == "Ranges" else {1: [2]}
+        cases = [("1-3", ("PARSED", "1-3")), (["1", "5-6"] if tname == "Ranges" else ["1:2", "3"], ("PARSED", sep.join(["1", "5-6"] if tname == "Ranges" else ["1:2", "3"]))), (parsed_in, parsed_in)]
+        if tname == "Ranges":
+            cases.append(("1 2  3", ("PARSED", "1,2,3")))
+        badv, unk = [], None
+        try:
+            for inp, want in cases:
+                try:
+                    got = run_validator(v_, inp, parser)
+                except _mtv.Raised as ex_:
+                    got = "raises " + (ast.unparse(ex_.node.exc)[:30] if ex_.node.exc is not None else "")
+                if got != want:
+                    badv.append(f"{inp!r} -> {got!r} (expected {want!r})")
+        except AnalysisError as ex_:
+            unk = str(ex_)
+        r.check3(None if unk else not badv, "R5", construct, f"{badv[:3]}: {tname} must join the words with {sep!r} and parse with {parser}; parsed values pass unchanged",
+                 loc=cmod.relpath, unknown_msg=f"validator outside the evaluated language: {unk}")
 
     r.assumptions += ["urllib.parse (urlparse/urlunparse/urlencode/parse_qs) and ipaddress behave as documented"]
     r.not_decided += ["correctness over the whole input language (percent-encoding, exotic hosts)"]
